@@ -353,13 +353,17 @@ func runWorld(env *Env, w *World) *Outcome {
 	d := model.NewDisk()
 	for _, pf := range w.Pre {
 		dst := root + pf.Path
-		if pf.IsDir {
+		if pf.IsDir && pf.Link == "" {
 			os.MkdirAll(dst, 0o755)
 			d.Dirs[pf.Path] = true
 			continue
 		}
 		os.MkdirAll(filepath.Dir(dst), 0o755)
 		if pf.Link != "" {
+			if pf.IsDir {
+				// a link to a directory: the directory it points to exists
+				os.MkdirAll(filepath.Join(filepath.Dir(dst), pf.Link), 0o755)
+			}
 			if err := os.Symlink(pf.Link, dst); err != nil {
 				out.Infra = err.Error()
 				return out
